@@ -43,12 +43,12 @@ package combinator
 //@   captures (parsers []parsley.Parser)
 //@   requires len(parsers) >= 1 && forall k int :: 0 <= k && k < len(parsers) ==> parsers[k] != nil
 //@   include  parsley.Parser.Parse
-//@   ghost_at call#2 parsley.GhostLastNode = lastres[parsley.Node](0)
-//@   ghost_at call#2 parsley.GhostLastCp = lastres[data.IntSet](1)
-//@   assert_at call#3 [cp-operand;C01] same(lastarg[data.IntSet](1), parsley.GhostLastCp)
-//@   ghost_at call#3 parsley.GhostCpAcc = lastres[data.IntSet](0)
-//@   ghost_at call#2 when lastres[parsley.Error](2) != nil && (lastres[parsley.Error](2).Pos() > pos || !parsley.IsNotFound(lastres[parsley.Error](2))) && lastres[parsley.Error](2).Pos() > parsley.GhostBest :: parsley.GhostBest = lastres[parsley.Error](2).Pos()
-//@   assert_at call#8 [L-success;C06] parsley.GhostBest >= 0 ==> lastarg[parsley.Error](1) != nil && lastarg[parsley.Error](1).Pos() >= parsley.GhostBest
+//@   ghost_at call:Parse#1 parsley.GhostLastNode = lastres[parsley.Node](0)
+//@   ghost_at call:Parse#1 parsley.GhostLastCp = lastres[data.IntSet](1)
+//@   assert_at call:Union#1 [cp-operand;C01] same(lastarg[data.IntSet](1), parsley.GhostLastCp)
+//@   ghost_at call:Union#1 parsley.GhostCpAcc = lastres[data.IntSet](0)
+//@   ghost_at call:Parse#1 when lastres[parsley.Error](2) != nil && (lastres[parsley.Error](2).Pos() > pos || !parsley.IsNotFound(lastres[parsley.Error](2))) && lastres[parsley.Error](2).Pos() > parsley.GhostBest :: parsley.GhostBest = lastres[parsley.Error](2).Pos()
+//@   assert_at call:SetError#1 [L-success;C06] parsley.GhostBest >= 0 ==> lastarg[parsley.Error](1) != nil && lastarg[parsley.Error](1).Pos() >= parsley.GhostBest
 //@   ensures  [L-failure;C06] n == nil && parsley.GhostBestOut >= 0 ==> err != nil && err.Pos() >= parsley.GhostBestOut
 //@   ensures  [cp-all;C01] same(cp, parsley.GhostCpAcc)
 //@   ensures  [E5-first;C01,C04] n != nil ==> same(n, parsley.GhostLastNode)
@@ -67,14 +67,14 @@ package combinator
 //@   captures (parsers []parsley.Parser)
 //@   requires len(parsers) >= 1 && forall k int :: 0 <= k && k < len(parsers) ==> parsers[k] != nil
 //@   include  parsley.Parser.Parse
-//@   ghost_at call#2 parsley.GhostLastNode = lastres[parsley.Node](0)
-//@   ghost_at call#2 parsley.GhostLastCp = lastres[data.IntSet](1)
-//@   assert_at call#3 [cp-operand;C01] same(lastarg[data.IntSet](1), parsley.GhostLastCp)
-//@   ghost_at call#3 parsley.GhostCpAcc = lastres[data.IntSet](0)
+//@   ghost_at call:Parse#1 parsley.GhostLastNode = lastres[parsley.Node](0)
+//@   ghost_at call:Parse#1 parsley.GhostLastCp = lastres[data.IntSet](1)
+//@   assert_at call:Union#1 [cp-operand;C01] same(lastarg[data.IntSet](1), parsley.GhostLastCp)
+//@   ghost_at call:Union#1 parsley.GhostCpAcc = lastres[data.IntSet](0)
 //@   ensures  [cp-all;C01] same(cp, parsley.GhostCpAcc)
-//@   assert_at call#4 [E4-merged;C01] same(lastarg[parsley.Node](1), parsley.GhostLastNode)
-//@   ghost_at call#2 when lastres[parsley.Error](2) != nil && (lastres[parsley.Error](2).Pos() > pos || !parsley.IsNotFound(lastres[parsley.Error](2))) && lastres[parsley.Error](2).Pos() > parsley.GhostBest :: parsley.GhostBest = lastres[parsley.Error](2).Pos()
-//@   assert_at call#9 [L-success;C06] parsley.GhostBest >= 0 ==> lastarg[parsley.Error](1) != nil && lastarg[parsley.Error](1).Pos() >= parsley.GhostBest
+//@   assert_at call:AppendNode#1 [E4-merged;C01] same(lastarg[parsley.Node](1), parsley.GhostLastNode)
+//@   ghost_at call:Parse#1 when lastres[parsley.Error](2) != nil && (lastres[parsley.Error](2).Pos() > pos || !parsley.IsNotFound(lastres[parsley.Error](2))) && lastres[parsley.Error](2).Pos() > parsley.GhostBest :: parsley.GhostBest = lastres[parsley.Error](2).Pos()
+//@   assert_at call:SetError#1 [L-success;C06] parsley.GhostBest >= 0 ==> lastarg[parsley.Error](1) != nil && lastarg[parsley.Error](1).Pos() >= parsley.GhostBest
 //@   ensures  [L-failure;C06] n == nil && parsley.GhostBestOut >= 0 ==> err != nil && err.Pos() >= parsley.GhostBestOut
 //@ loop 1 (k rangeindex, cp data.IntSet, res parsley.Node, err parsley.Error, notFoundErr parsley.Error)
 //@   invariant 0 <= k && k <= len(parsers)
@@ -149,11 +149,11 @@ package combinator
 //@   ensures  seqOK(s, ctx) && len(s.nodes) >= old(len(s.nodes)) && parsley.WfCtx(ctx) && parsley.WfCache(ctx) && seqGhost(ctx)
 //@   ensures  [fixed] same(s.parserLookUp, old(s.parserLookUp)) && same(s.lenCheck, old(s.lenCheck)) && same(s.resultHandler, old(s.resultHandler)) && s.token == old(s.token) && same(s.interpreter, old(s.interpreter))
 //@   assert_at entry [sep] cap(s.nodes) == 0 || s.result == nil || !typeis[ast.NodeList](s.result) || array(s.result.(ast.NodeList)) != array(s.nodes)
-//@   assert_at call#10 [handler-input;C01] len(lastarg[[]parsley.Node](3)) == depth && forall k int :: 0 <= k && k < depth ==> same(lastarg[[]parsley.Node](3)[k], s.nodes[k])
-//@   assert_at call#12 [handler-input;C01] len(lastarg[[]parsley.Node](3)) == depth && forall k int :: 0 <= k && k < depth ==> same(lastarg[[]parsley.Node](3)[k], s.nodes[k])
+//@   assert_at call:HandleResult#1 [handler-input;C01] len(lastarg[[]parsley.Node](3)) == depth && forall k int :: 0 <= k && k < depth ==> same(lastarg[[]parsley.Node](3)[k], s.nodes[k])
+//@   assert_at call:HandleResult#2 [handler-input;C01] len(lastarg[[]parsley.Node](3)) == depth && forall k int :: 0 <= k && k < depth ==> same(lastarg[[]parsley.Node](3)[k], s.nodes[k])
 //@   requires [L;C06] seqErrOK(s)
 //@   ensures  [L;C06] seqErrOK(s)
-//@   ghost_at call#3 when lastres[parsley.Error](2) != nil && lastres[parsley.Error](2).Pos() > parsley.GhostBest :: parsley.GhostBest = lastres[parsley.Error](2).Pos()
+//@   ghost_at call:Parse#1 when lastres[parsley.Error](2) != nil && lastres[parsley.Error](2).Pos() > parsley.GhostBest :: parsley.GhostBest = lastres[parsley.Error](2).Pos()
 //@   ensures  [pc1;C04] s.result != nil || s.err != nil || parsley.GhostCurtailed
 //@   ensures  [nodes-arr;C07] (array(s.nodes) == old(array(s.nodes)) && cap(s.nodes) == old(cap(s.nodes))) || fresh(s.nodes)
 //@   ensures  [result-arr;C07] s.result == nil || parsley.ListArr(s.result) == 0 || freshid(parsley.ListArr(s.result)) || (old(s.result) != nil && parsley.ListArr(s.result) == old(parsley.ListArr(s.result)) && parsley.NAlts(s.result) >= old(parsley.NAlts(s.result)) && parsley.NAlts(s.result) + parsley.ListSpare(s.result) == old(parsley.NAlts(s.result) + parsley.ListSpare(s.result)))
